@@ -35,6 +35,9 @@ var collCfgs = []collCfg{
 	{"idL<<R", 0x0a000001, 0xc0000201, 65001, 65002, false},
 	{"id=,asL>>R", 0x0a000005, 0x0a000005, 4200000001, 65001, true},
 	{"id=,asL<<R", 0x0a000005, 0x0a000005, 65001, 4200000001, false},
+	// pairs whose order flips when the octets are reversed (a comparison on byte-swapped identifiers)
+	{"idL<R,swap", 0x0a000002, 0x0a000101, 65001, 65002, false},
+	{"idL>R,swap", 0xac100001, 0x0afffffe, 65001, 65002, true},
 }
 
 // collObs is what the two remote connection scripts observed.
